@@ -153,6 +153,41 @@ def run_sort(ctx: Ctx, res: Result, n_cases):
         if ci < 2:
             res.samples.append({"stream": "sort", "n": n, "complex": cx, "eps": eps, "sigma": case["sigma"][:6],
                                 "result": got[:6] if not isinstance(got, str) else got, "items": case["items"][:6]})
+    # "its result is ALWAYS a permutation of its input": second bases that are NOT close to a permutation of the first — an
+    # unrelated unitary basis, and a basis in which three modes are strongly mixed (avoided crossing: overlaps 0.5–0.8 shared
+    # between rows).  Generic (all overlap magnitudes non-zero and pairwise distinct beyond rounding), so the elimination is
+    # unambiguous; only the permutation clause and the correspondence are checked here (no position is prescribed).
+    n_arb = 0
+    for k in range(40 if ctx.thorough() else 12):
+        if ctx.time_left() < 60: break
+        n = [3, 4, 5, 8, 12, 3, 6, 30, 3, 10, 60, 7][k % 12]
+        cx = bool(k % 2)
+        case = gen_sort_case(rng, n, cx, 0.0)
+        B = numpy.array(from_json_c(case["base"]))
+        if k % 2 == 0:
+            T = unitary(rng, n, cx)                              # unrelated basis
+        else:
+            T = numpy.array(from_json_c(case["target"]))
+            i3 = rng.permutation(n)[:3]
+            M = unitary(rng, 3, cx)
+            while numpy.abs(M).max() > 0.85: M = unitary(rng, 3, cx)
+            T[i3] = M @ T[i3]                                    # three targets become strong mixtures of three base vectors
+        case["target"] = to_json_c(T.astype(complex)); case["sigma"] = None
+        mag = numpy.sort(numpy.abs(B.conj() @ T.T).ravel())
+        if mag[0] < 1e-9 or numpy.min(numpy.diff(mag)) < 1e-12: continue
+        got = real_sort(case, ["list", "tuple", "ndarray"][k % 3])
+        res.evaluations += 1; n_arb += 1
+        if isinstance(got, str) or sorted(map(str, got)) != sorted(case["items"]):
+            res.oracle_failures.append(OracleFailure(what="evec_sort: result is not a permutation of the items (second basis not close to a permutation of the first)",
+                                                     input={"kind": "sort-arbitrary", "case": case}, observed=got if isinstance(got, str) else [str(g) for g in got][:10],
+                                                     expected=sorted(case["items"])[:10], site="evec_sort:result is not a permutation of the items"))
+        m = ctx.driver.ask([{"op": "c20.sort", "target": enc_c(T), "base": enc_c(B), "n_items": n}])[0]
+        gi = got if isinstance(got, str) else [case["items"].index(g) if g is not None else None for g in got]
+        if (m if m != "error" else "error") != (gi if not isinstance(gi, str) else "error"):
+            res.disagreements.append(Disagreement("c20.sort:arbitrary", {"kind": "sort-arbitrary", "case": case}, gi, m))
+        else:
+            res.traces_validated += 1
+    dist["arbitrary_second_basis"] = n_arb
     # outside the quantifier: duplicated / zero target vectors (None entries) — model vs code only
     for k in range(6):
         n = int(rng.integers(2, 9))
@@ -517,6 +552,13 @@ def replay(ctx: Ctx, payload):
         case = payload["case"]
         return [OracleFailure(what=f"evec_sort: {w}", input=payload, observed=o, expected=e)
                 for w, o, e in oracle_sort(case, real_sort(case))]
+    if kind == "sort-arbitrary":
+        case = payload["case"]
+        got = real_sort(case)
+        if isinstance(got, str) or sorted(map(str, got)) != sorted(case["items"]):
+            return [OracleFailure(what="evec_sort: result is not a permutation of the items", input=payload,
+                                  observed=got if isinstance(got, str) else [str(g) for g in got][:10], expected=sorted(case["items"])[:10])]
+        return []
     if kind == "disp2eig":
         case = payload["case"]
         return [OracleFailure(what=f"evec_disp2eig: {w}", input=payload, observed=o, expected=e)
